@@ -150,9 +150,9 @@ int rtosc_arg_val_add(const rtosc_arg_val_t* lhs, const rtosc_arg_val_t* rhs,
         {
             case 'd': res->val.d = lhs->val.d + rhs->val.d; return true;
             case 'f': res->val.f = lhs->val.f + rhs->val.f; return true;
-            case 'h': res->val.h = lhs->val.h + rhs->val.h; return true;
+            case 'h': res->val.h = (int64_t)((uint64_t)lhs->val.h + (uint64_t)rhs->val.h); return true;
             case 'c':
-            case 'i': res->val.i = lhs->val.i + rhs->val.i; return true;
+            case 'i': res->val.i = (int32_t)((uint32_t)lhs->val.i + (uint32_t)rhs->val.i); return true;
             case 'T':
             case 'F': res->type = 'F'; res->val.T = 0; return true;
             default: return false;
@@ -170,9 +170,9 @@ int rtosc_arg_val_sub(const rtosc_arg_val_t* lhs, const rtosc_arg_val_t* rhs,
     {
         case 'd': res->val.d = lhs->val.d - rhs->val.d; return true;
         case 'f': res->val.f = lhs->val.f - rhs->val.f; return true;
-        case 'h': res->val.h = lhs->val.h - rhs->val.h; return true;
+        case 'h': res->val.h = (int64_t)((uint64_t)lhs->val.h - (uint64_t)rhs->val.h); return true;
         case 'c':
-        case 'i': res->val.i = lhs->val.i - rhs->val.i; return true;
+        case 'i': res->val.i = (int32_t)((uint32_t)lhs->val.i - (uint32_t)rhs->val.i); return true;
         case 'T':
         case 'F': res->type = 'F'; res->val.T = 0; return true;
         default: return false;
@@ -200,9 +200,9 @@ int rtosc_arg_val_mult(const rtosc_arg_val_t* lhs, const rtosc_arg_val_t* rhs,
         {
             case 'd': res->val.d = lhs->val.d * rhs->val.d; return true;
             case 'f': res->val.f = lhs->val.f * rhs->val.f; return true;
-            case 'h': res->val.h = lhs->val.h * rhs->val.h; return true;
+            case 'h': res->val.h = (int64_t)((uint64_t)lhs->val.h * (uint64_t)rhs->val.h); return true;
             case 'c':
-            case 'i': res->val.i = lhs->val.i * rhs->val.i; return true;
+            case 'i': res->val.i = (int32_t)((uint32_t)lhs->val.i * (uint32_t)rhs->val.i); return true;
             case 'T': res->type = 'T'; res->val.T = 1; return true;
             case 'F': res->type = 'F'; res->val.T = 0; return true;
             default: return false;
